@@ -83,6 +83,8 @@ def _gen_case(rng, max_n=200, heavy_ok=False):
         return _near_touching(rng, min(n, 60), opts)
     if r < 0.34:
         return _packing(rng, min(n, 60), opts)
+    if r < 0.40:
+        return _close_pairs(rng, opts)
     model = rng.choice(["integers", "half", "uniform", "clusters", "ties", "clusters", "far"])
     wmode = rng.choice(["fixed", "table", "uniform", "ints"])
     fixedw = rng.choice(WIDTHS + [20, 30])
@@ -126,6 +128,27 @@ def _gen_case(rng, max_n=200, heavy_ok=False):
         labels[rng.randrange(n)]["w"] = float(opts["maxPos"]) - float(opts.get("minPos", 0) or 0) + 50
         tag += "+wide-label"
     return labels, opts, "%s/%s/%s" % (model, tag, opts["algorithm"])
+
+
+def _close_pairs(rng, opts):
+    """Sparse labels plus one or two pairs whose data positions are 1-3 units apart, a budget that forces a split (the
+    overlapping pairs are punted first) and a small label spacing: in the stub layer everything is conflict-free at the
+    label spacing, only the fixed 2-unit line spacing between the two neighbouring stubs asks for a move."""
+    k = rng.choice([3, 4, 6])
+    step = rng.choice([100.0, 150.0])
+    w = rng.choice([20, 30, 10])
+    labels = [{"pos": 50.0 + i * step, "w": w} for i in range(k)]
+    for _ in range(rng.choice([1, 1, 2])):
+        base = 50.0 + step * rng.randrange(k) + step / 2 + rng.choice([0.0, 0.5, 7.0])
+        labels += [{"pos": base, "w": w}, {"pos": base + rng.choice([1.0, 1.5, 2.0, 2.9]), "w": w}]
+    rng.shuffle(labels)
+    opts["nodeSpacing"] = rng.choice([0, 0, 0.5, 1])
+    opts["maxPos"] = 50.0 + k * step
+    req = required_width(labels, opts["nodeSpacing"])
+    opts["density"] = max(0.05, min(1.0, (req - w * rng.choice([1, 2])) / opts["maxPos"]))
+    opts["stubWidth"] = rng.choice([1, 1, 0, 0.5])
+    opts["algorithm"] = "overlap"
+    return labels, opts, "close-pairs/bounded/overlap"
 
 
 def _near_touching(rng, n, opts):
